@@ -194,7 +194,9 @@ pub enum Step {
     /// output), 8 Context verify_digest, 9 SigningKey::verify wrappers (needs signer s), 10 DigestVerifier
     /// ksrc: how the verifier obtained the key: 0 from the wire bytes, 1 `VerifyingKey::default()` (key bytes ignored),
     /// 2 decoded point converted with `From<EdwardsPoint>` (canonical re-encoding)
-    Ver { mode: u8, key: B, m: B, sig: B, ctx: Option<B>, ch: Vec<u16>, chosen: Option<B>, d: u8, #[serde(default)] ksrc: u8 },
+    Ver { mode: u8, key: B, m: B, sig: B, ctx: Option<B>, ch: Vec<u16>, chosen: Option<B>, d: u8, #[serde(default)] ksrc: u8,
+          /// the signature was produced by an honest signer (for this key and message, under some context)
+          #[serde(default)] hon: bool },
     /// append to batch queue q
     BQ { q: u8, m: B, sig: B, key: B },
     /// verify_batch on queue q. var 0 as is, 1 twice (repetition), 2 permuted by arg, 3 entry arg[0]
